@@ -105,6 +105,18 @@ func cmdCheck(args []string) int {
 		bo, boundedInfo = eng.runBounded(repairHarness, *repo, *verif, *tier, seed)
 		extraObls = append(extraObls, bo...)
 	}
+	if id == "C11" {
+		// Repair is outside the verified subset: its purity is decided by the bounded enumeration
+		// of /verif/bounded/repair_bounded_test.go (clause argument-unchanged), labelled bounded
+		bo, info := eng.runBounded(repairHarness, *repo, *verif, *tier, seed)
+		boundedInfo = info
+		for _, o := range bo {
+			if strings.HasSuffix(o.Name, "/bounded:argument-unchanged") || strings.HasSuffix(o.Name, "/bounded:harness-ran") {
+				o.Props = []string{"C11"}
+				extraObls = append(extraObls, o)
+			}
+		}
+	}
 	if id == "C15" {
 		var bo []*Obligation
 		bo, boundedInfo = eng.runBounded(cliHarness, *repo, *verif, *tier, seed)
@@ -307,6 +319,13 @@ func cmdCheck(args []string) int {
 	ev.Coverage["known_finding_lines"] = kfLines
 	if id == "C14" {
 		ev.Coverage["explanation"] = "reads-frame obligations decided by a def-use walk over the typed AST of every command function that calls TryCache (no SMT): each flag/positional-derived value read after the TryCache call must occur in the encodePayload tuple list, be computed only from such values, or be the input/output path or the no-cache switch. One obligation per (command, value). Typestate half: ioDelegate.Close/Commit are verified by contract (SMT) — an uncommitted entry is removed — and per command a structural obligation shows no error return is reachable after Commit."
+	}
+	if id == "C11" {
+		for k, v := range boundedInfo {
+			ev.Coverage[k] = v
+		}
+		ev.Coverage["bounded_obligations"] = 2
+		ev.Coverage["explanation"] = "frame obligations (assigns nothing) by SMT for every function listed in functions_under_contract; in addition ONE bounded clause, not a proof: Repair (outside the verified subset) is run on every feature table within the bound of /verif/bounded/repair_bounded_test.go and must leave its argument unchanged (obligation gts.Repair/bounded:argument-unchanged)."
 	}
 	if id == "C08" {
 		for k, v := range boundedInfo {
